@@ -33,7 +33,7 @@ type History struct {
 
 // NodeIdBoundaries are values around which the code under test changes its representation of node id
 // sets (the size classes of the graph search's visited bit sets) or integer widths.
-var NodeIdBoundaries = []uint64{255, 256, 65535, 65536, 110_000, 260_000, 520_000, 1_300_000, 2_600_000, 5_200_000, 10_500_000, 1<<32 - 1, 1 << 32}
+var NodeIdBoundaries = []uint64{255, 256, 65535, 65536, 110_000, 260_000, 520_000, 1_300_000, 2_600_000, 5_200_000, 10_500_000, 1<<32 - 1, 1 << 32, 1 << 40, 1 << 63}
 
 // GenFirstNodeId draws a preset for History.FirstNodeId: a boundary minus a few ids, so that the history
 // crosses it.
